@@ -72,6 +72,7 @@ GALLERY = [
      "{ (x as u32) + 2 * (y as u32) + 3 * (z as u32) + 4 * (w as u32) + 5 * (v as u32) + 6 * (u as u32) + 7 * (t as u32) + 8 * (s as u32) + 9 * (r as u32) + 10 * (q as u32) + 11 * (p as u32) + 12 * (o as u32) }",
      "1, 2, 3, 4, 5, 6, 7, 8, 9, 10, 11, 12", "650"),
     ("<D>(deps: &D, res: Result<u8, ()>) -> Result<u8, ()>", "{ let v = res?; Ok(v + 1) }", "Ok(1)", "Ok(2)"),
+    ("<D>(deps: (&D), x: i32) -> i32", "{ x + 1 }", "1", "2"),   # a parenthesised dependency type
     ("<D>(deps: &D, c: char, f: f64, i: i128, u: usize, un: ()) -> ::std::string::String", "{ ::std::format!(\"{c}{f}{i}{u}{un:?}\") }", "'c', 1.5, -3, 4, ()", "\"c1.5-34()\""),
     ("<D>(deps: &D, cow: ::std::borrow::Cow<'_, str>) -> usize", "{ cow.len() }", "::std::borrow::Cow::Borrowed(\"abc\")", "3"),
     ("<D>(deps: &D, x: &&&u8) -> u8", "{ ***x + 1 }", "&&&4", "5"),
